@@ -1174,7 +1174,7 @@ fn gen_digest(rng: &mut Rng, tier: Tier, emit: &mut dyn FnMut(Case)) {
         &vm(&[("[", &[42.010565]), ("]", &[-17.026548]), ("^", &[1.0])]), &sm(&[("C", 57.021465)]));
     emit_digest(rng, emit, "dig:directed", &enzyme("$", None, true, 0, 1, 40, false), "MAKCR", 2,
         &vm(&[("[", &[42.010565]), ("]", &[-17.026548])]), &e);
-    // length window that removes every peptide: Parameters::digest panics (outside the property)
+    // length window that removes every peptide: the empty database (group_digests is guarded; it used to panic)
     emit_digest(rng, emit, "dig:directed", &enzyme("KR", None, true, 0, 30, 40, false), "MAKCR", 1, &vm(&[("M", &[1.0])]), &e);
 
     let n = if tier == Tier::Quick { 300 } else { 12000 };
@@ -1290,7 +1290,9 @@ fn emit_multi(emit: &mut dyn FnMut(Case), tag: &'static str, e: &EnzymeBuilder, 
         Err(_) => return false,
     };
     if digests.is_empty() {
-        return false;
+        // no digest at all: the empty database (group_digests is guarded; it used to panic)
+        emit(Case::new(req_multi(e, prots, max, vars, statics)).tag(tag).tag("multi:no-digest-empty-database").nontrivial(false));
+        return true;
     }
     let mut keyed: Vec<(Position, String)> = digests.iter().map(|d| (d.position, d.sequence.clone())).collect();
     keyed.sort();
@@ -1342,6 +1344,9 @@ fn gen_multi(rng: &mut Rng, tier: Tier, emit: &mut dyn FnMut(Case)) {
             emit_multi(emit, "multi:directed", &tr, &ps(&["MCSKYAGKWWG", "YAGKYSRMCSK", "AAAKGG", "GGKAAA"]), 2, &vars, &statics);
         }
     }
+    // no protein yields a peptide (length window 30..40): the empty database
+    emit_multi(emit, "multi:directed", &enzyme("KR", None, true, 0, 30, 40, false), &ps(&["MCSKYAGK", "AAGK"]), 2, &term_vars, &e);
+    emit_multi(emit, "multi:directed", &enzyme("KR", Some('P'), true, 1, 30, 40, true), &ps(&["MK"]), 1, &term_vars, &e);
     // N-terminal cleavage (the peptide starts with D)
     emit_multi(emit, "multi:directed", &enzyme("D", None, false, 0, 1, 40, false), &ps(&["DMCSDYAG", "AAGDYSDMCS", "DMCS"]), 2, &term_vars, &e);
 
